@@ -232,18 +232,22 @@ def replay_files(files, meta, extra=None):
     return out
 
 
-def report(name, files, meta, cls, summary, extra=None):
-    """violation unless the class belongs to an open finding"""
-    for f in OPEN.values():
-        if cls in f.get("classes", []):
-            chk.known(f["id"], f["what"])
-            return
+def vio(name, files, meta, summary, extra=None):
     chk.violation(name, replay_files(files, meta, extra), summary)
     d = os.path.join(core.V, "replays", "%s-%s-s%d-%s" % (chk.pid, chk.tier, chk.seed, name))
     try:
         os.chmod(os.path.join(d, "replay.sh"), 0o755)
     except OSError:
         pass
+
+
+def report(name, files, meta, cls, summary, extra=None):
+    """violation unless the class belongs to an open finding"""
+    for f in OPEN.values():
+        if cls in f.get("classes", []):
+            chk.known(f["id"], f["what"])
+            return
+    vio(name, files, meta, summary, extra)
 
 
 def report_ir(name, files, meta, iprobs, outs):
@@ -360,7 +364,19 @@ if REPLAY:
     n0 = len(chk.violations)
     chk.violation = lambda name, fl, summary: (chk.violations.append(name), print("STILL-FAILS %s\n  %s" % (name, summary.replace("\n", "\n  ")[:3000])))
     report = lambda name, fl, m, cls, summary, extra=None: chk.violation(name, None, summary)
-    out = run_case("replay", files, meta)
+    if meta["mod"] == probes.MOD:
+        out = run_case("replay", files, meta, probe=True)
+        if "trace" in out:
+            bad, by = probe_filter(out["trace"])
+            for fid, msgs in by.items():
+                chk.violation("probe-" + fid, None, "; ".join(msgs[:4]))
+            if bad:
+                chk.violation("probe-control", None, "; ".join(bad[:4]))
+            if out["res"]["ll_build"][0] == 0:
+                ip, _ = ir_monitor(dict(meta, packages=[]), out["res"]["dir"], files)
+                report_ir("replay", files, meta, ip, {})
+    else:
+        out = run_case("replay", files, meta)
     print("REPLAY: %s" % ("still fails" if len(chk.violations) > n0 or out.get("invalid") else "no problem found"), out.get("invalid", ""))
     w.close()
     sys.exit(1 if len(chk.violations) > n0 else 0)
@@ -375,14 +391,12 @@ if "trace" in pr:
     bad, by = probe_filter(pr["trace"])
     for fid, msgs in by.items():
         probe_seen[fid] = msgs
-        if fid in OPEN or (fid in ASSUME_FIXED and False):
+        if fid in OPEN:
             chk.known(fid, OPEN[fid]["what"])
         else:
-            chk.violation("probe-" + fid, replay_files(probes.files(), pmeta, {"out.llgo.txt": pr["trace"]}),
-                          "[probe] %s: %s" % (fid, "; ".join(msgs[:3])))
+            vio("probe-" + fid, probes.files(), pmeta, "[probe] %s: %s" % (fid, "; ".join(msgs[:3])), {"out.llgo.txt": pr["trace"]})
     if bad:
-        chk.violation("probe-control", replay_files(probes.files(), pmeta, {"out.llgo.txt": pr["trace"]}),
-                      "[probe] control lines of the probe program fail: " + "; ".join(bad[:3]))
+        vio("probe-control", probes.files(), pmeta, "[probe] control lines of the probe program fail: " + "; ".join(bad[:3]), {"out.llgo.txt": pr["trace"]})
     chk.cov["evaluations"] += pr["trace"].count("\nW ")
     # the -gen-llfiles build of the probe program warmed the private caches; its IR is checked like any other
     rc, log = pr["res"]["ll_build"]
@@ -408,7 +422,7 @@ if dot_bad:
     if "C14-dotted-path" in OPEN:
         chk.known("C14-dotted-path", OPEN["C14-dotted-path"]["what"])
     else:
-        chk.violation("probe-C14-dotted-path", replay_files(probes.DOT_FILES, dmeta, {"build.log": log}), "[probe] " + dot_bad)
+        vio("probe-C14-dotted-path", probes.DOT_FILES, dmeta, "[probe] " + dot_bad, {"build.log": log})
 chk.cov["evaluations"] += 2
 
 # ---------------------------------------------------------------------------------------------------- random programs
